@@ -393,6 +393,44 @@ def backendDefaults (b : String) : Script.Opts :=
   | "lsf" => Generated.lsfDefaults
   | _ => []
 
+/-! ### pool server sessions: tokens `<conn>:<req>` -/
+
+def parseReq (r : String) : Option Srv.Req :=
+  match r with
+  | "eof" => some .eof | "nj" => some .notJson | "no" => some .notObject | "nk" => some .noKind
+  | "uk0" => some (.unknownKind false) | "uk1" => some (.unknownKind true)
+  | "eb" => some .enqueueBad | "en0" => some (.enqueue false) | "en1" => some (.enqueue true)
+  | "gsb" => some .getStateBad | "gss" => some .getStates | "cab" => some .cancelBad | "cl" => some .close
+  | _ =>
+    if r.startsWith "gs" then some (.getState (nat! (String.ofList (r.toList.drop 2))))
+    else if r.startsWith "ca" then some (.cancel (nat! (String.ofList (r.toList.drop 2))))
+    else none
+
+def showResp : Srv.Resp → String
+  | .enqueued tid => "enq=" ++ toString tid
+  | .state s => "state=" ++ (match s with | some x => x.name | none => "null")
+  | .states tbl => "states=" ++ ",".intercalate (tbl.map (fun p => toString p.1 ++ "." ++ p.2.name))
+
+/-- run a session; requests on a connection that the model already ended are skipped -/
+def srvRun (t : Srv.Tbl) (ended : List Nat) : List String → List String → String
+  | [], acc => " ".intercalate acc.reverse ++ " | " ++ ",".intercalate (t.tasks.map (·.name))
+  | tok :: rest, acc =>
+    match tok.splitOn ":" with
+    | ["adv", tid, st] =>
+      (match LStatus.ofName? st with
+       | some x => srvRun (t.advance (nat! tid) x) ended rest acc
+       | none => "bad-req " ++ tok)
+    | [c, r] =>
+      let conn := nat! c
+      if ended.contains conn then srvRun t ended rest acc else
+      (match parseReq r with
+       | none => "bad-req " ++ tok
+       | some req =>
+         let (t', resp, fate) := Srv.handle t req
+         let ended' := if fate == .ended then conn :: ended else ended
+         srvRun t' ended' rest (match resp with | some x => (c ++ ":" ++ showResp x) :: acc | none => acc))
+    | _ => "bad-req " ++ tok
+
 def dispatch (toks : List String) : String :=
   match toks with
   | ["ping"] => "pong"
@@ -517,6 +555,7 @@ def dispatch (toks : List String) : String :=
   | ["cleanlogs", files, targets] => mklist ((Script.cleanLogs ((unlist files).map unh) ((unlist targets).map unh)).map toh)
   | ["shell.words", s] => mklist ((Shell.words (unhc s)).map tohc)
   | ["shell.quote", s] => tohc (Shell.quote (unhc s))
+  | "srv" :: reqs => srvRun {} [] reqs []
   | ["validname", n] => showBool (Wfl.validName (unh n))
   | ["validpath", n] => showBool (Wfl.validPath (unh n))
   | ["targetwd", t, w] => toh (Wfl.targetWd (if t == "-" then none else some (unh t)) (unh w))
